@@ -146,7 +146,25 @@ def case_admix(col, p):
     if not np.allclose(np.asarray(a.data), np.asarray(b.data), rtol=1e-13, atol=0):
         col.violation('C05:from_phi:admix_identity_vs_direct:%dD' % d, dict(p), {'maxdiff': float(np.abs(np.asarray(a.data) - np.asarray(b.data)).max())})
     rows = _rows_lattice(d)
-    mats = list(itertools.product(rows, repeat=d))
+    if p.get('offdiag'):
+        # identity with one or two rows replaced by 3/4 e_k + 1/4 e_l (every ordered pair k != l; every pair of such rows)
+        singles = []
+        for k in range(d):
+            for l in range(d):
+                if k != l:
+                    m = [[1.0 if i == j else 0.0 for j in range(d)] for i in range(d)]
+                    m[k][k], m[k][l] = 0.75, 0.25
+                    singles.append(m)
+        mats = [tuple(map(tuple, m)) for m in singles]
+        for a, b in itertools.combinations(range(len(singles)), 2):
+            ka = [i for i in range(d) if singles[a][i][i] != 1.0][0]
+            kb = [i for i in range(d) if singles[b][i][i] != 1.0][0]
+            if ka != kb:
+                m = [list(r) for r in singles[a]]
+                m[kb] = list(singles[b][kb])
+                mats.append(tuple(map(tuple, m)))
+    else:
+        mats = list(itertools.product(rows, repeat=d))
     lo, hi = p.get('mats', (0, len(mats)))
     wts = [np.array([float(v) for v in RSa.trapz_w(RSa.fgrid(g))]) for g in grids]
     Wt = wts[0]
@@ -217,6 +235,16 @@ def case_inbreeding(col, p):
             stol = 1e-10 + (3e-14 / min(Fpos) if Fpos else 0.0) * d
             if not abs(float(got.sum()) - mass) <= stol * mass:
                 col.violation('C05:from_phi_inbreeding:probabilities_do_not_sum_to_one', info, {'total': float(got.sum()), 'mass': mass})
+            if d >= 2 and min(Fs) > 0:
+                from dadi import PhiManip
+                for k in range(d):
+                    sub = phi
+                    for r in sorted([q for q in range(d) if q != k], reverse=True):
+                        sub = PhiManip.remove_pop(sub, grids[0], r + 1)
+                    one = np.asarray(dadi.Spectrum.from_phi_inbreeding(np.asarray(sub), [ns[k]], [grids[k]], [Fs[k]], [ploidys[k]], mask_corners=False).data)
+                    mg = got.sum(axis=tuple(q for q in range(d) if q != k))
+                    if not float(np.abs(mg - one).max()) <= (1e-9 + 3e-13 / min(Fs) * d) * max(mass, 1e-300):
+                        col.violation('C05:from_phi_inbreeding:marginal_consistency', dict(info, pop=k + 1), {'maxerr': float(np.abs(mg - one).max()), 'mass': mass})
             err = float(np.abs(got - direct).max()) / max(mass, 1e-300)
             Fmax = max(Fs)
             if Fmax <= 1e-6 and all(pl == 2 for pl in ploidys) and not err <= 1e-4:
@@ -313,7 +341,37 @@ def case_ladder(col, p):
     col.distinct('nontrivial', ('ladder', n))
 
 
-CASES = {'analytic': case_analytic, 'direct': case_direct, 'admix': case_admix, 'inbreeding': case_inbreeding, 'bbc': case_bbc,
+def case_history(col, p):
+    """memoised beta differences are transparent: sampling on grid A then on a grid B that shares length, first interior point and end
+    points with A (and vice versa, and with other sample sizes in between) still gives the exact operator for B"""
+    import dadi
+    A = np.array([0.0, 0.125, 0.25, 0.5, 0.75, 1.0])
+    B = np.array([0.0, 0.125, 0.375, 0.625, 0.875, 1.0])
+    C = np.array([0.0, 0.125, 0.25, 0.5, 0.75 + 2 ** -40, 1.0])
+    grids = {'A': A, 'B': B, 'C': C}
+    n = 0
+    for d, ns in ((1, (5,)), (2, (5, 3)), (3, (2, 5, 3))):
+        exact = {}
+        for name, g in grids.items():
+            fg = RSa.fgrid(g)
+            exact[name] = [RSa.as_float(RSa.W_exact(nk, fg)) for nk in ns]
+        rng = np.random.RandomState(5)
+        phi = rng.uniform(0.2, 1.0, size=(6,) * d)
+        for order in itertools.permutations('ABC'):
+            dadi.Spectrum_mod._dbeta_cache.clear()
+            for name in order:
+                fs = dadi.Spectrum.from_phi(phi, list(ns), [grids[name]] * d, mask_corners=False)
+                col.tick(transitions=1)
+                ex = RSa.tensor_apply(exact[name], phi)
+                err = float(np.abs(np.asarray(fs.data) - ex).max())
+                if not err <= 1e-11 * float(np.abs(ex).max()):
+                    col.violation('C05:from_phi:result_depends_on_history', dict(p, d=d, order=order, at=name), {'maxerr': err})
+                n += 1
+    col.tick(states=n, traces=n)
+    col.distinct('nontrivial', ('history',))
+
+
+CASES = {'history': case_history, 'analytic': case_analytic, 'direct': case_direct, 'admix': case_admix, 'inbreeding': case_inbreeding, 'bbc': case_bbc,
          'closure': case_closure, 'ladder': case_ladder}
 
 
@@ -380,6 +438,10 @@ def run(ctx):
     if ctx.quick:
         ctx.cap_hit('quick: 3-D admix_props lattice (3375 matrices) thinned to every 3rd chunk of 150; 2-D lattice (225) complete; thorough: complete')
     cases.append({'kind': 'admix', 'ns': (1, 1, 1, 1), 'G': 3, 'seed': seed, 'mats': (0, 40)})
+    for lo in range(0, 78, 13):
+        cases.append({'kind': 'admix', 'ns': (1, 2, 1, 1), 'G': 3, 'seed': seed, 'offdiag': True, 'mats': (lo, lo + 13)})
+    cases.append({'kind': 'admix', 'ns': (2, 1, 2), 'G': 3, 'seed': seed, 'offdiag': True})
+    cases.append({'kind': 'admix', 'ns': (2, 3), 'G': 4, 'seed': seed, 'offdiag': True})
     # inbreeding
     Fl = [0.0, 1e-6, 1e-3, 0.3, 0.9, 1 - 1e-12]
     for n, pl in ((2, 2), (4, 2), (6, 2), (4, 4), (8, 4), (6, 6), (8, 8)):
@@ -388,6 +450,11 @@ def run(ctx):
     cases.append({'kind': 'inbreeding', 'ns': (2, 4), 'G': 4, 'grid': 'E', 'ploidy': (2, 2), 'Fs': Fl + [(0.3, 1e-3), (1e-6, 0.9)], 'seed': seed})
     cases.append({'kind': 'inbreeding', 'ns': (4, 4), 'G': 4, 'grid': 'D', 'ploidy': (2, 4), 'Fs': [1e-6, 0.3], 'seed': seed})
     cases.append({'kind': 'inbreeding', 'ns': (2, 2, 2), 'G': 3, 'grid': 'E', 'ploidy': (2, 2, 2), 'Fs': [1e-6, 0.3, (0.3, 0.5, 1e-3)], 'seed': seed})
+    for pls in ((4, 2), (2, 4)):
+        cases.append({'kind': 'inbreeding', 'ns': (4, 4), 'G': 4, 'grid': 'E', 'ploidy': pls, 'Fs': [1e-3, 0.3, (0.3, 0.6)], 'seed': seed})
+    for pls in ((4, 2, 2), (2, 4, 2), (2, 2, 4)):
+        cases.append({'kind': 'inbreeding', 'ns': (4, 4, 4), 'G': 3, 'grid': 'E', 'ploidy': pls, 'Fs': [0.3, (0.2, 0.4, 0.6)], 'seed': seed})
+    cases.append({'kind': 'history'})
     for nind, pl in ((1, 2), (2, 2), (3, 2), (2, 4), (1, 8), (2, 6)):
         cases.append({'kind': 'bbc', 'nind': nind, 'ploidy': pl})
     # closure identities
